@@ -49,6 +49,20 @@ theorem unstorable_frame_fails_whole_call (cfg : HCfg) (eval : σ → SFrame →
       (.stopped, env', [unregistered cfg f (some "unstorable output")], true) :=
   unstorable_output_fails_call cfg eval env env' f appends ret hd he hs
 
+/-- … and for a frame that would not read back once stored (meta nested beyond the decoder's
+    limit): one such explicit append that is not ephemeral makes the whole call fail - nothing of
+    it is emitted, the instance stops with the error (the defect F29 was the absence of this) -/
+theorem unreadable_output_fails_whole_call (cfg : HCfg) (eval : σ → SFrame → σ × EvalRes) (env env' : σ) (f : SFrame)
+    (appends : List OutReq) (ret : Ret) (hd : dispatch cfg f = .invoke)
+    (he : eval env f = (env', .ok appends ret)) (o : OutReq) (ho : o ∈ appends)
+    (hdec : o.decodable = false) (httl : o.ttl ≠ some .ephemeral) :
+    step cfg eval .running env f =
+      (.stopped, env', [unregistered cfg f (some "unstorable output")], true) := by
+  apply unstorable_output_fails_call cfg eval env env' f appends ret hd he
+  rw [List.all_eq_false]
+  refine ⟨emit cfg f o, List.mem_append_left _ (List.mem_map.2 ⟨o, ho, rfl⟩), ?_⟩
+  simp [storable, emit, hdec, httl]
+
 theorem return_frame_shape (cfg : HCfg) (f : SFrame) (j : String) :
     (returnFrame cfg f j).topic = cfg.name ++ cfg.suffix ∧ (returnFrame cfg f j).ttl = cfg.ttl ∧
     (returnFrame cfg f j).content = some j := ⟨rfl, rfl, rfl⟩
